@@ -75,6 +75,8 @@ def generate(seed, tier):
         old_name = pool_v[S['swarm'].randrange(len(pool_v))]
         new_name = S['swarm'].choice(['err', 'cnt', 'new_vector', 'in_vec', 'err', 'cnt', 'val1', 'obj', 'main', 'pprint',
                                       'PrintIterations',
+                                      # identifiers outside ASCII (the textbook's own parameter names)
+                                      '\u03b11', '\u03b8', 'd\u00e9ficit', '\u03b11',
                                       # these five shadow an attribute / local the emitted class needs (known finding F24)
                                       'orig_vector', 'STEP', 'MaxIterations', 'VariableList', 'Iterator'])
         lag_old, lag_new = 'LAG_' + old_name, 'LAG_' + new_name
